@@ -21,6 +21,7 @@ import (
 	"fmt"
 	"io"
 	"os"
+	"sort"
 	"strings"
 )
 
@@ -74,8 +75,13 @@ func (e *ValidationError) GoError() error {
 		parts = append(parts, fmt.Sprintf("missing required: %s", strings.Join(e.Missing, ", ")))
 	}
 
-	for field, reason := range e.Invalid {
-		parts = append(parts, fmt.Sprintf("%s: %s", field, reason))
+	fields := make([]string, 0, len(e.Invalid))
+	for field := range e.Invalid {
+		fields = append(fields, field)
+	}
+	sort.Strings(fields)
+	for _, field := range fields {
+		parts = append(parts, fmt.Sprintf("%s: %s", field, e.Invalid[field]))
 	}
 
 	return fmt.Errorf("%s", strings.Join(parts, "; "))
